@@ -808,8 +808,33 @@ func em2Listing(a *asm.Emitter, exp []em2Exp, base int64, phase string) (string,
 	return "", "", ne
 }
 
-// em2C15 judges one history (listings forced on, everything fits)
+// em2C15 judges one history (listings forced on, everything fits): emitted directly, and with the tail of the
+// history emitted through Clone + Append at up to three split points (the property is about "any sequence of emitter
+// calls"; Clone and Append are emitter calls, and the listing of the parent must still describe the parent's bytes)
 func em2C15(in emScript) (*emFail, int) {
+	f, ne := em2C15split(in, -1)
+	if f != nil {
+		return f, ne
+	}
+	n := len(in.Steps)
+	seen := map[int]bool{}
+	for _, k := range []int{1, n / 2, n - 1} {
+		if k <= 0 || k >= n || seen[k] {
+			continue
+		}
+		seen[k] = true
+		f, k2 := em2C15split(in, k)
+		ne += k2
+		if f != nil {
+			return f, ne
+		}
+	}
+	return nil, ne
+}
+
+// em2C15split: split < 0 emits the whole history into one emitter; otherwise steps[split:] go to a Clone of the
+// emitter that received steps[:split], which is then Appended
+func em2C15split(in emScript, split int) (*emFail, int) {
 	emCensus()
 	in.Gen = true
 	sc, ok := em2Premises(in, true)
@@ -820,7 +845,15 @@ func em2C15(in emScript) (*emFail, int) {
 	var exp []em2Exp
 	base, n := int64(0), 0
 	pendingBase := false // a base record no line has followed yet
-	for _, st := range sc.Steps {
+	orig := a
+	for si, st := range sc.Steps {
+		if split >= 0 && si == split {
+			var cl *asm.Emitter
+			if emProtect(func() { cl = orig.Clone(emTarget(false, sc.Cap, sc.Fill+3)) }) {
+				return nil, 0
+			}
+			a = cl
+		}
 		p, info, err := emDoFlat(a, st)
 		if err != nil {
 			return nil, 0
@@ -866,11 +899,22 @@ func em2C15(in emScript) (*emFail, int) {
 			pendingBase = false // even an empty block is a line for this purpose
 		}
 	}
+	if a != orig {
+		if emProtect(func() { orig.Append(a) }) {
+			return nil, 0
+		}
+		a = orig
+	}
 	if pendingBase { // the base is listed together with the line that follows it; nothing followed
 		exp = exp[:len(exp)-1]
 	}
 	ne := 0
-	fail := func(key, d string) *emFail { return &emFail{Clause: "C15." + key, Key: key, Detail: d, Script: sc} }
+	fail := func(key, d string) *emFail {
+		if split >= 0 {
+			d = fmt.Sprintf("steps[%d:] emitted through Clone and Appended: %s", split, d)
+		}
+		return &emFail{Clause: "C15." + key, Key: key, Detail: d, Script: sc}
+	}
 	if a.Len() != n {
 		// not a listing matter (C19 / C06.history); the expected offsets would be meaningless
 		return nil, 0
